@@ -42,6 +42,47 @@ def qstr(prefix_bits, flags, s):
     return pint(prefix_bits - 1, flags << 1, len(s)) + s
 
 
+_HUFF = None
+
+
+def huff_table():
+    """(length, code) per symbol 0..256 from the committed copy of the RFC 7541 table (octets crate excerpt)"""
+    global _HUFF
+    if _HUFF is None:
+        txt = open(os.path.join(ROOT, 'spec-data', 'rfc7541_huffman__octets_crate.txt')).read()
+        _HUFF = [(int(a), int(b, 16)) for a, b in re.findall(r'\(\s*(\d+)\s*,\s*(0x[0-9a-fA-F]+)\s*\)', txt)]
+        assert len(_HUFF) == 257
+    return _HUFF
+
+
+def huff(sb, pad_ones=True, extra_pad_bytes=0):
+    """RFC 7541 Huffman coding of the byte string sb, padded with the most significant bits of EOS (ones)"""
+    t = huff_table()
+    acc, n = 0, 0
+    for c in sb:
+        l, code = t[c]
+        acc = (acc << l) | code
+        n += l
+    pad = (-n) % 8
+    acc = (acc << pad) | (((1 << pad) - 1) if pad_ones else 0)
+    n += pad
+    return acc.to_bytes(n // 8, 'big') + b'\xff' * extra_pad_bytes
+
+
+def qstr_h(prefix_bits, flags, s, **kw):
+    """Huffman coded string literal (H = 1)"""
+    e = huff(s, **kw)
+    return pint(prefix_bits - 1, (flags << 1) | 1, len(e)) + e
+
+
+def lit_h(name, val, hname=True, hval=True, **kw):
+    return (qstr_h(4, 0b0010, name) if hname else qstr(4, 0b0010, name)) + (qstr_h(8, 0, val, **kw) if hval else qstr(8, 0, val))
+
+
+def lit_ref_h(i, val, **kw):
+    return pint(4, 0b0101, i) + qstr_h(8, 0, val, **kw)
+
+
 def idx(i):
     return pint(6, 0b11, i)
 
@@ -64,6 +105,11 @@ REQ_CONNECT = block([idx(15), lit_ref(0, b'a:1')])
 RESP_200 = block([idx(25), lit(b'x-r', b'1')])
 RESP_103 = block([idx(24)])
 TRAILERS = block([lit(b'x-t', b'1')])
+# the same messages with Huffman coded literals (what every browser sends); RFC 7541 C.4.1 authority
+REQ_GET_H = block([idx(17), idx(23), lit_ref_h(0, b'www.example.com'), idx(1), lit_h(b'user-agent', b'Mozilla/5.0 (X11; Linux x86_64) h3-verif/1'),
+                   lit_h(b'x-long-codes', b'{}|~^`<>"\\')])
+RESP_200_H = block([idx(25), lit_h(b'server', b'h3-verif'), lit_ref_h(44, b'text/html; charset=utf-8')])
+TRAILERS_H = block([lit_h(b'x-checksum', b'0123456789abcdef')])
 H_HEADERS, H_DATA, H_SETTINGS, H_GOAWAY, H_MAXPUSH, H_CANCEL, H_PUSHPROMISE = 1, 0, 4, 7, 0xd, 3, 5
 SETTINGS_EMPTY = frame(H_SETTINGS, b'')
 SETTINGS_SOME = frame(H_SETTINGS, vi(6) + vi(4096) + vi(1) + vi(0) + vi(7) + vi(0) + vi(0x33) + vi(1) + vi(0x21 + 0x1f * 3) + vi(7))
@@ -108,6 +154,7 @@ def base_scenarios():
     S.append(Sc('srv', 'pa+g', ctl() + [('U', 6), d(6, b'\x01', vi(0))] + [('B', 0), d(0, frame(H_HEADERS, REQ_GET)), ('F', 0)], 'push-stream-from-client'))
     S.append(Sc('srv', 'pa', ctl() + [('B', 0), ('B', 4), ('B', 8), d(8, frame(H_HEADERS, REQ_GET)), ('F', 8), d(0, frame(H_HEADERS, REQ_GET)),
                                         ('F', 0), d(4, frame(H_HEADERS, REQ_GET)), ('F', 4)], 'three'))
+    S.append(Sc('srv', 'pa', ctl() + [('B', 0), d(0, frame(H_HEADERS, REQ_GET_H), frame(H_DATA, b'abc'), frame(H_HEADERS, TRAILERS_H)), ('F', 0)], 'huffman'))
     # ---- client role (peer = server: control 3, qpack 7 / 11, push 15, responses on 0, 4)
     cctl = lambda *more: [('U', 3), d(3, b'\x00', SETTINGS_EMPTY, *more)]
     S.append(Sc('cli', 'pa', cctl() + [d(0, frame(H_HEADERS, RESP_200)), ('F', 0)], 'resp'))
@@ -124,6 +171,7 @@ def base_scenarios():
     S.append(Sc('cli', 'pa', [d(0, frame(H_HEADERS, RESP_200)), ('F', 0)] + cctl(), 'response-before-control'))
     S.append(Sc('cli', 'pa+m100', cctl() + [d(0, frame(H_HEADERS, RESP_200), frame(H_DATA, bytes(range(256)) * 3))], 'open-ended'))
     S.append(Sc('cli', 'pa+g', cctl(frame(H_CANCEL, vi(0))) + [d(0, frame(H_HEADERS, RESP_200)), ('F', 0)], 'cancel-push'))
+    S.append(Sc('cli', 'pa', cctl() + [d(0, frame(H_HEADERS, RESP_200_H), frame(H_DATA, b'abc'), frame(H_HEADERS, TRAILERS_H)), ('F', 0)], 'huffman'))
     return S
 
 
@@ -227,6 +275,9 @@ QPACK_BAD = [
     b'\xff' * 12, b'\x00\x7f', b'\x00\xff\xff\xff\xff\xff\xff\xff\xff\xff\x7f', block([idx(17), idx(17), idx(25)]), block([idx(25), idx(17)]),
     block([lit(b'A', b'b')]), block([lit(b'a"', b'b')]), block([lit(b'a', b'\x00\n')]), block([lit(b':path', b'')] + [idx(17), idx(23)]),
     block([idx(17), idx(23), idx(1), lit(b'host', b'')]), block([idx(15)]), block([idx(98)]), block([idx(99)]),
+    block([idx(17), idx(23), idx(1), lit_ref_h(0, b'www.example.com')]), block([idx(25), lit_h(b'a', b'0' * 8)]), block([idx(25), lit_h(b'abcdefgh', b'12345678' * 8)]),
+    block([idx(17), idx(23), idx(1), lit_ref_h(0, b'www.example.com', extra_pad_bytes=1)]), block([idx(25), lit_h(b'a', b'xyz', pad_ones=False)]),
+    block([idx(25), lit_h(b'a', b'\x00\x01\x02\xff')]), block([idx(25), lit_h(b'a', b'')]),
 ]
 
 
@@ -387,6 +438,164 @@ def big_cases(tier='quick'):
     return out
 
 
+def huffman_cases(rng, n_random):
+    """VALID Huffman literals: every decoded length 1..64, every padding length 0..7, codes from 5 to 30 bits, as value and as name,
+    with proper EOS-prefix padding, plus over-long padding / zero padding variants"""
+    out = []
+    alph_short = b'012aceiost %-./3456789=A_bdfghlmnpru'      # 5..6 bit codes
+    alph_long = bytes([0, 1, 9, 10, 13, 22, 127, 128, 200, 249, 255, 92, 123, 60, 126, 94])   # 13..30 bit codes
+    strings = []
+    for ln in range(1, 65):
+        strings.append(bytes(rng.choice(alph_short) for _ in range(ln)))
+        strings.append(bytes(rng.choice(alph_short + alph_long) for _ in range(ln)))
+    for pad in range(8):
+        # search a short string with exactly `pad` padding bits
+        for _ in range(200):
+            sb = bytes(rng.choice(alph_short + alph_long) for _ in range(rng.randint(8, 20)))
+            bits = sum(huff_table()[c][0] for c in sb)
+            if (-bits) % 8 == pad:
+                strings.append(sb)
+                break
+    for _ in range(n_random):
+        strings.append(bytes(rng.getrandbits(8) for _ in range(rng.randint(1, 64))))
+    for k, sb in enumerate(strings):
+        kw = {}
+        if k % 11 == 10:
+            kw = {'extra_pad_bytes': rng.choice([1, 4])}
+        elif k % 13 == 12:
+            kw = {'pad_ones': False}
+        req = block([idx(17), idx(23), lit_ref_h(0, b'www.example.com'), idx(1), lit_h(b'x-v', sb, **kw)] + ([lit_h(sb, b'v')] if k % 3 == 0 else []))
+        resp = block([idx(25), lit_h(b'x-v', sb, **kw)])
+        mode = ['one', 'byte', 'rand'][k % 3]
+        sc = Sc('srv', 'pa', [('U', 2), d(2, b'\x00', SETTINGS_EMPTY), ('B', 0), d(0, frame(H_HEADERS, req), frame(H_HEADERS, block([lit_h(b'x-t', sb, **kw)]))), ('F', 0)], 'huf')
+        out.append(line(sc.role, sc.opts, events_of(sc, mode, rng), 'each' if k % 2 else 'end', rng, 'huf'))
+        sc = Sc('cli', 'pa', [('U', 3), d(3, b'\x00', SETTINGS_EMPTY), d(0, frame(H_HEADERS, resp)), ('F', 0)], 'huf')
+        out.append(line(sc.role, sc.opts, events_of(sc, mode, rng), 'each' if k % 2 else 'end', rng, 'huf'))
+    return out
+
+
+OWN_STREAMS = {'srv': [3, 7, 11], 'cli': [2, 6, 10], 'wts': [3, 7, 11]}
+BUDGETS = [0, 1, 2, 3, 7, 63]
+
+
+def backpressure_cases(bases, rng, rounds):
+    """write budgets / stream credits withheld and granted piecemeal (W<id>:<k>, G<n>, H<n>), optionally with a fault while
+    a write is pending; send calls carry the targets w<id> / wc and may pend only while credit is withheld"""
+    out = []
+    for r in range(rounds):
+        for sc in bases:
+            own = OWN_STREAMS[sc.role]
+            reqs = [i for i in sc.streams() if i % 4 == 0] or [0]
+            k = BUDGETS[(r + len(out)) % len(BUDGETS)]
+            opts = sc.opts + '+q%d' % k
+            c = rng.random()
+            if c < 0.25:
+                opts += '+u%d' % rng.choice([0, 1, 2, 3])
+            elif c < 0.4 and sc.role == 'cli':
+                opts += '+h%d' % rng.choice([0, 1])
+            if rng.random() < 0.3:
+                opts += '+' + rng.choice(['t', 's', 'y', 't+s'])
+            evs = events_of(sc, rng.choice(['one', 'one', 'rand']), rng)
+            new = []
+            for e in evs:
+                new.append(e)
+                if rng.random() < 0.6:
+                    sid = rng.choice(own + reqs)
+                    new.append(('W%d:%d' % (sid, rng.choice([1, 1, 2, 3, 7, 64, 1000])), sid))
+                if rng.random() < 0.15:
+                    new.append((rng.choice(['G1', 'G3', 'H1', 'H2']), reqs[0]))
+            # tail: keep granting in small steps
+            for _ in range(rng.randint(0, 12)):
+                sid = rng.choice(own + reqs)
+                new.append(('W%d:%d' % (sid, rng.choice([1, 2, 3, 7, 64, 100000])), sid))
+            if rng.random() < 0.5:
+                # a fault while writes are pending: STOP_SENDING / RESET on a request or own stream, connection close
+                i = rng.randint(0, len(new))
+                sid = rng.choice(own + reqs)
+                new.insert(i, (fault_variants(sid, rng, rng.choice([1, 2, 2, 2, 3, 4])), sid))
+            out.append(line(sc.role, opts, new, 'each', rng, 'bp'))
+    # the W* form (default budget of streams opened later), every k, before anything runs
+    for role, ctlid in (('srv', 2), ('cli', 3)):
+        for k in BUDGETS:
+            out.append('run %s pa W*:%d,~,U%d,%d:c:000400,~,W%d:1,~,W%d:2,~,W%d:100 bp' % (role, k, ctlid, ctlid, ctlid ^ 1, ctlid ^ 1, ctlid ^ 1))
+    return out
+
+
+def own_stream_fault_cases(bases, rng):
+    """STOP_SENDING / RESET aimed at the streams h3 itself opened (control, QPACK encoder / decoder), at every step"""
+    out = []
+    for sc in bases:
+        evs = events_of(sc, 'one', rng)
+        for i in range(len(evs) + 1):
+            for sid in OWN_STREAMS[sc.role]:
+                kind = rng.choice([1, 2, 2])
+                new = evs[:i] + [(fault_variants(sid, rng, kind), sid)] + evs[i:]
+                out.append(line(sc.role, sc.opts, new, 'each', rng, 'own'))
+    return out
+
+
+APP_OPTS = {'srv': ['t', 's', 'x', 'y', 't+s', 's+x', 'k0', 'k1', 'k2', 'k1+t', 'x+y', 'pb+s+t'],
+            'cli': ['t', 's', 'x', 'y', 'b+t', 'b+t+s', 'd', 'n2+d', 's+x', 'b+y']}
+
+
+def app_cases(bases, rng, rounds):
+    """the application calls beyond the plain pattern: send_trailers, stop_sending, stop_stream, shutdown(n) then more
+    accept(), split(), dropping the SendRequest handle"""
+    out = []
+    for r in range(rounds):
+        for sc in bases:
+            for extra in APP_OPTS[sc.role]:
+                opts = sc.opts + '+' + extra
+                evs = events_of(sc, rng.choice(['one', 'rand']), rng)
+                if r > 0 or rng.random() < 0.5:
+                    if evs:
+                        i = rng.randint(0, len(evs))
+                        t = evs[min(i, len(evs) - 1)][1]
+                        evs = evs[:i] + [(fault_variants(t, rng, rng.randint(0, 4)), t)] + evs[i:]
+                out.append(line(sc.role, opts, evs, rng.choice(['each', 'each', 'rand']), rng, 'app'))
+    return out
+
+
+WT_SETTINGS = bytes.fromhex('00040e0801ab603742013301ab60374301')
+WT_CONNECT = block([idx(15), idx(23), lit_ref(0, b'a'), idx(1), lit(b':protocol', b'webtransport')])
+
+
+def wt_cases(rng, rounds):
+    """a WebTransport session on the server; the session's streams are read through BOTH AsyncRead impls of BufRecvStream
+    with read sizes around the chunk size"""
+    out = []
+    for r in range(rounds):
+        for bidi in (False, True):
+            for c in (1, 5, 16, 100):
+                for k in sorted({1, 2, max(1, c - 1), c, c + 1}):
+                    for mode in ('r', 'o'):
+                        payload = bytes(rng.getrandbits(8) for _ in range(c * rng.randint(1, 3) + rng.choice([0, 0, 1])))
+                        if bidi:
+                            sid, open_ev, hdr = 4, 'B4', enc(0x41, 2) + vi(0)
+                        else:
+                            sid, open_ev, hdr = 6, 'U6', enc(0x54, 2) + vi(0)
+                        evs = [('U2', 2), ('2:c:' + WT_SETTINGS.hex(), 2), ('B0', 0), ('0:c:' + frame(H_HEADERS, WT_CONNECT).hex(), 0), (open_ev, sid)]
+                        data = hdr + payload
+                        # the header may share a chunk with payload bytes
+                        first = rng.choice([len(hdr), len(hdr) + min(c, len(payload)), 1])
+                        pieces = [data[:first]] + [data[first:][i:i + c] for i in range(0, len(data) - first, c)]
+                        evs += [('%d:c:%s' % (sid, p.hex()), sid) for p in pieces if p]
+                        end = rng.choice(['F', 'F', 'R', 'none', 'X'])
+                        if end == 'F':
+                            evs.append(('%d:F' % sid, sid))
+                        elif end == 'R':
+                            evs.append(('%d:R%d' % (sid, rng.choice(RESET_CODES)), sid))
+                        elif end == 'X':
+                            evs.append(('X%d' % rng.choice(CLOSE_CODES), sid))
+                        if r > 0 and rng.random() < 0.5:
+                            i = rng.randint(0, len(evs))
+                            t = evs[min(i, len(evs) - 1)][1]
+                            evs = evs[:i] + [(fault_variants(t, rng, rng.randint(0, 4)), t)] + evs[i:]
+                        opts = 'pa+%s%d%s' % (mode, k, '+ab' if bidi else '')
+                        out.append(line('wts', opts, evs, rng.choice(['each', 'end', 'rand']), rng, 'wt'))
+    return out
+
+
 EV_RE = re.compile(r'^(\d+):c:([0-9a-f]+)$')
 CALL_ERR_RE = re.compile(r'^err:[cs]:(\d+|-):[A-Za-z]+$')
 
@@ -475,6 +684,16 @@ class P(Property):
             out.append(line(sc.role, sc.opts, evs, rng.choice(['each', 'end', 'rand']), rng, 'rnd'))
         # 5. large inputs
         out += big_cases(tier)
+        # 6. valid Huffman literals (every length 1..64, every padding length, long codes)
+        out += huffman_cases(rng, 40 if quick else 20000)
+        # 7. back-pressure: credit withheld and granted piecemeal, faults while a write is pending
+        out += backpressure_cases(bases, rng, 30 if quick else 3000)
+        # 8. faults aimed at h3's own streams
+        out += own_stream_fault_cases(bases, rng)
+        # 9. the other application calls
+        out += app_cases(bases, rng, 2 if quick else 200)
+        # 10. WebTransport session streams through both AsyncRead impls
+        out += wt_cases(rng, 2 if quick else 200)
         return out
 
     def impl_env(self):
@@ -500,7 +719,7 @@ class P(Property):
             return True
         if not out.startswith('ok '):     # panic / crash / livelock / driver-error
             return False
-        must = spec.split('must=')[1].split(',') if 'must=' in spec else []
+        must = spec.split('must=')[1].split(' ')[0].split(',') if 'must=' in spec else []
         first, _, second = out[3:].partition(' | close ')
         f = dict(kv.split('=', 1) for kv in first.split(' ') if '=' in kv)
         s = dict(kv.split('=', 1) for kv in second.split(' ') if '=' in kv)
@@ -519,12 +738,21 @@ class P(Property):
                         return False
         if f.get('stuck', '-') != '-':
             return False               # a call completed only after a forced re-poll: lost wake-up
+        bp = ' bp=1' in (' ' + spec)
         pend = f.get('pend', '-')
         if pend != '-':
             for tok in pend.split(';'):
                 target = tok.rsplit('@', 1)[1]
+                if bp and '.resolve_request@' in tok and '*' not in must:
+                    # over the field-section limit resolve_request itself writes the 431 response: under back-pressure it
+                    # waits on the stream's send credit as well
+                    if target in must and ('w' + target) in must:
+                        return False
+                    continue
                 if '*' in must or target in must:
                     return False
+                if target.startswith('w') and not bp:
+                    return False     # a send-side call pending although no credit is withheld
         if s.get('pend', '-') != '-':
             return False
         return True
